@@ -294,6 +294,10 @@ pub struct BtCase {
     pub fee_sel: u8,
     /// worker threads of the multi-thread flavour (selector into {1,2,4,8})
     pub threads_sel: u8,
+    /// backtests_in_memory only, > 0 with a dataset of at most 60 items: a parameter sweep — the
+    /// tables are cycled to 32 + crowd concurrent backtests
+    #[serde(default)]
+    pub crowd: u8,
 }
 
 const FEES: [(i64, u32); 3] = [(0, 0), (1, 3), (1, 2)];
@@ -493,6 +497,7 @@ fn case_strategy_lag(max_events: usize, max_bt: usize, lag: bool) -> BoxedStrate
             latency_ms,
             fee_sel,
             threads_sel,
+            crowd: 0,
         })
         .boxed()
 }
@@ -668,7 +673,11 @@ impl Check for BacktestsInMemory {
 
     fn strategy(tier: Tier) -> BoxedStrategy<BtCase> {
         let big = if tier == Tier::Quick { 700 } else { 2500 };
-        prop_oneof![2 => case_strategy_lag(40, 8, true), 2 => case_strategy_lag(big, 5, true)].boxed()
+        prop_oneof![
+            8 => case_strategy_lag(40, 8, true),
+            1 => (case_strategy_lag(40, 8, true), 1u8..=64).prop_map(|(mut c, crowd)| { c.crowd = crowd; c }),
+            8 => case_strategy_lag(big, 5, true),
+        ].boxed()
     }
 
     fn eval(case: &BtCase) -> CaseReport {
@@ -681,7 +690,11 @@ impl Check for BacktestsInMemory {
             return rep;
         }
         let n_inst = s.indexed.instruments().len();
-        let tables: Vec<Vec<Entry>> = case.tables.iter().map(|t| normalise(t, s.trades.len(), n_inst)).collect();
+        let mut tables: Vec<Vec<Entry>> = case.tables.iter().map(|t| normalise(t, s.trades.len(), n_inst)).collect();
+        if case.crowd > 0 && s.dataset.len() <= 60 && !tables.is_empty() {
+            let base = tables.clone();
+            tables = (0..32 + case.crowd as usize).map(|k| base[k % base.len()].clone()).collect();
+        }
         let constant = Arc::new(BacktestArgsConstant {
             instruments: s.indexed.clone(),
             executions: s.executions.clone(),
@@ -717,6 +730,7 @@ impl Check for BacktestsInMemory {
             bad!(sig, "{msg}");
         }
         rep.class_if(tables.len() >= 2, "two_or_more_concurrent");
+        rep.class_if(tables.len() > 32, "more_than_32_concurrent");
         rep.class_if(s.dataset.len() > 128, "dataset_over_128");
         rep.class_if(s.dataset.len() > 512, "dataset_over_512");
         rep.class_if(s.trades.windows(2).any(|w| w[1].1 < w[0].1), "timestamps_not_monotonic");
@@ -778,7 +792,7 @@ impl Check for SystemAuditModes {
             system::builder::{AuditMode, EngineFeedMode, SystemBuild},
         };
         let mut rep = CaseReport::new();
-        let bt = BtCase { two_exchanges: true, n_instruments: 3, events: case.events.clone(), tables: vec![vec![]], latency_ms: 0, fee_sel: 0, threads_sel: 0 };
+        let bt = BtCase { two_exchanges: true, n_instruments: 3, events: case.events.clone(), tables: vec![vec![]], latency_ms: 0, fee_sel: 0, threads_sel: 0, crowd: 0 };
         let s = setup(&bt);
         if s.trades.is_empty() || !matches!(s.dataset[0], MarketStreamEvent::Item(_)) {
             return rep;
@@ -943,7 +957,7 @@ impl Check for InMemoryData {
 }
 
 pub fn run(ctx: &mut Ctx) {
-    ctx.rule = "backtests_paused: datasets of 1..80|300 market items (public trades over 1..3 instruments on 1..2 mock exchanges, unique increasing times, 5% reconnect notices) served with a virtual gap of 2 x latency + 5 ms; 1..12|24 concurrent backtests, each strategy a table (market-item ordinal -> market order) firing once per ordinal and never on the last two ordinals; mock latency 0..49 ms, fee in {0, 0.1%, 1%}; tokio paused current-thread runtime; every backtest is judged against its own table (market items seen = dataset in order, fills, final balances/positions, summary) and the first six are re-run alone and compared. backtests_threads: same through multi-thread runtimes with 1/2/4/8 workers, the dataset's last item gated on all expected fills (20 s watchdog => skipped, 60 s => inconclusive). non-trivial = >= 4 concurrent backtests with >= 4 different tables, every backtest has >= 1 fill, dataset >= 20 items; distinct by hash of the case. in_memory_data: MarketDataInMemory stream()/time_first_event on generated event lists; 1..4 streams taken from the one dataset (and a clone) polled in a generated interleaving must each yield the whole dataset (non-trivial = >= 2 streams, >= 3 switches). backtests_in_memory: 1..8 concurrent backtests over the crate's MarketDataInMemory (datasets 1..40 or 1..700|2500 items, zero gap, paused current-thread runtime), one item in five lags 1..900 s behind its place (timestamps not monotonic), judged on consumption only: each engine saw every market item and reconnect notice once, in order; then one backtest alone over the same shared data. system_audit_modes: the steps of backtest() through SystemBuild with the audit stream disabled / enabled and never taken / taken, read for 0..2500 ticks and dropped / read to the end (datasets 1..40 or 1..700|2500): the engine returned by shutdown_after_backtest saw the whole dataset. The solo-vs-concurrent comparison includes the fills' trade / order ids and the open positions' fill ids.".into();
+    ctx.rule = "backtests_paused: datasets of 1..80|300 market items (public trades over 1..3 instruments on 1..2 mock exchanges, unique increasing times, 5% reconnect notices) served with a virtual gap of 2 x latency + 5 ms; 1..12|24 concurrent backtests, each strategy a table (market-item ordinal -> market order) firing once per ordinal and never on the last two ordinals; mock latency 0..49 ms, fee in {0, 0.1%, 1%}; tokio paused current-thread runtime; every backtest is judged against its own table (market items seen = dataset in order, fills, final balances/positions, summary) and the first six are re-run alone and compared. backtests_threads: same through multi-thread runtimes with 1/2/4/8 workers, the dataset's last item gated on all expected fills (20 s watchdog => skipped, 60 s => inconclusive). non-trivial = >= 4 concurrent backtests with >= 4 different tables, every backtest has >= 1 fill, dataset >= 20 items; distinct by hash of the case. in_memory_data: MarketDataInMemory stream()/time_first_event on generated event lists; 1..4 streams taken from the one dataset (and a clone) polled in a generated interleaving must each yield the whole dataset (non-trivial = >= 2 streams, >= 3 switches). backtests_in_memory: 1..8 (in one case of 17 a sweep of 33..96) concurrent backtests over the crate's MarketDataInMemory (datasets 1..40 or 1..700|2500 items, zero gap, paused current-thread runtime), one item in five lags 1..900 s behind its place (timestamps not monotonic), judged on consumption only: each engine saw every market item and reconnect notice once, in order; then one backtest alone over the same shared data. system_audit_modes: the steps of backtest() through SystemBuild with the audit stream disabled / enabled and never taken / taken, read for 0..2500 ticks and dropped / read to the end (datasets 1..40 or 1..700|2500): the engine returned by shutdown_after_backtest saw the whole dataset. The solo-vs-concurrent comparison includes the fills' trade / order ids and the open positions' fill ids.".into();
     ctx.assumptions = vec![
         "strategies decide from the number of market items seen only, once per ordinal (decisions independent of the timing of execution responses), and place nothing on the last two ordinals".into(),
         "timestamps are set aside (the historical clock mixes in wall-clock time)".into(),
